@@ -1,6 +1,6 @@
 """C21 — Aggregates agree with their definitions: no silent wrap-around in sum (casts + overflow ops)."""
 from ..facts import op_local
-from ..mirutil import upper_bound_guards, value_root
+from ..mirutil import narrowing_cast_guarded
 
 EXPLANATION = (
     "Decides the `sum never silently wraps` clause: in the aggregate executor (projection_sort::execute_aggregate and its closures) every "
@@ -33,9 +33,7 @@ def run(ctx):
                 rv = st[2]
                 if rv[0] == "cast" and rv[1] == "IntToInt" and rv[3] == "i128" and rv[4] in ("i64", "i32"):
                     n_cast += 1
-                    l = op_local(rv[2])
-                    guards = upper_bound_guards(b, l) if l is not None else []
-                    ok = any(b.dominates(g[0], bi) for g in guards)
+                    ok = narrowing_cast_guarded(b, bi, op_local(rv[2]))
                     # checked conversion idiom: i64::try_from(x) instead of `as`
                     ctx.instance("C21.1", "%s: cast %s->%s #%d guarded=%s" % (i, rv[3], rv[4], k, ok))
                     ctx.oblige(ok, "C21.1", "%s:cast(%s->%s)#%d" % (i, rv[3], rv[4], k),
@@ -47,4 +45,14 @@ def run(ctx):
                     ctx.instance("C21.2", "%s: raw i64 %s at line %d" % (i, rv[1], st[3]))
                     ctx.oblige(False, "C21.2", "%s:raw-i64-%s@%s" % (i, rv[1], b.local_name(st[1][0]) or "tmp"),
                                "raw i64 arithmetic in an aggregate fold (panics in debug, wraps in release)", "%s:%d" % (b.file, st[3]))
-    ctx.floor("C21.1", "narrowing accumulator casts", n_cast, 2)
+    # checked conversions (`i64::try_from(acc)`) discharge the obligation by construction
+    n_checked = 0
+    for i, b in sorted(F.bodies.items()):
+        if not i.startswith(PREFIX) or "::tests::" in i:
+            continue
+        for c in b.calls():
+            if c.name.endswith("::try_from") and "TryFrom<i128> for i64" in c.name:
+                n_checked += 1
+                ctx.instance("C21.1", "%s: checked conversion i128->i64 (%s)" % (i, c.loc()))
+                ctx.oblige(True, "C21.1", "%s:try_from#%d" % (i, c.ordinal), "")
+    ctx.floor("C21.1", "accumulator narrowings (casts + checked conversions)", n_cast + n_checked, 2)
